@@ -316,7 +316,11 @@ func buildC07src(tier string, fromCamera bool) sim.Scenario {
 						d[off] = byte(tp.Raw())
 						name = fmt.Sprintf("in-place-corrupt@%d/%d(pk %d of GOP)", off, len(d), k)
 					} else {
-						d = d[:12+tp.Choose(len(d)-11)]
+						cut := 12 + tp.Choose(len(d)-11)
+						if tp.Bool() && len(d) > 17 { // only the first bytes of the payload survive (a unit of 0..4 bytes)
+							cut = 12 + tp.Choose(5)
+						}
+						d = d[:cut]
 						name = fmt.Sprintf("in-place-truncate@%d/%d(pk %d of GOP)", len(d), len(p.Data), k)
 					}
 					faultNames = append(faultNames, name)
